@@ -60,14 +60,32 @@ type Injected struct {
 // AttachFaults makes every call of code under test (API and provider) a fault choice point of the run. only (optional)
 // restricts which calls may fail. Returns the list that is filled with the faults taken.
 func (w *World) AttachFaults(run *explore.Run, only func(c *Call) bool) *[]Injected {
+	return w.AttachFaultsOpt(run, only, false)
+}
+
+// ClearPersistentFaults ends every persistent fault (drivers call it at the end of a step: a persistent fault models a
+// call that keeps failing for as long as the code under test retries it within one reconcile).
+func (w *World) ClearPersistentFaults() { w.persistent = nil }
+
+// AttachFaultsOpt is AttachFaults; with persistent the menu of every API call also offers a failure that PERSISTS: every
+// later call with the same signature fails too, until ClearPersistentFaults. A transient failure is absorbed by code that
+// retries (retry.OnError around a get+patch); a persistent one is not.
+func (w *World) AttachFaultsOpt(run *explore.Run, only func(c *Call) bool, persistent bool) *[]Injected {
 	var taken []Injected
 	hook := func(c *Call) error {
+		if err, ok := w.persistent[c.Sig()]; ok {
+			c.Note = joinNote(c.Note, "INJECTED:persisting")
+			return err
+		}
 		if only != nil && !only(c) {
 			return nil
 		}
 		menu := FaultMenu(c)
 		if len(menu) == 0 {
 			return nil
+		}
+		if persistent && menu[0].Name == "500" {
+			menu = append(menu, Fault{"500-persistent", menu[0].Err})
 		}
 		// keyed by call signature + occurrence, not by position: the order of independent calls may follow Go map
 		// iteration order, which the harness does not own
@@ -76,6 +94,12 @@ func (w *World) AttachFaults(run *explore.Run, only func(c *Call) bool) *[]Injec
 			return nil
 		}
 		f := menu[k-1]
+		if f.Name == "500-persistent" {
+			if w.persistent == nil {
+				w.persistent = map[string]error{}
+			}
+			w.persistent[c.Sig()] = f.Err
+		}
 		taken = append(taken, Injected{Seq: c.Seq, Call: c.String(), Fault: f.Name})
 		c.Note = joinNote(c.Note, "INJECTED:"+f.Name)
 		return f.Err
